@@ -120,6 +120,15 @@ func hasSym(v value, depth int) bool {
 				return true
 			}
 		}
+	case structure:
+		if depth > 2 {
+			return false
+		}
+		for _, e := range v {
+			if hasSym(e, depth+1) {
+				return true
+			}
+		}
 	case iface:
 		return hasSym(v.v, depth+1)
 	}
